@@ -39,6 +39,12 @@ func pemDecodeSingleCert(pemDER []byte) (*x509.Certificate, error) {
 	return x509.ParseCertificate(pemBlock.Bytes)
 }
 
+// publicKeysEqual reports whether a and b are the same public key.
+func publicKeysEqual(a, b crypto.PublicKey) bool {
+	ak, ok := a.(interface{ Equal(crypto.PublicKey) bool })
+	return ok && ak.Equal(b)
+}
+
 func pemEncodeCert(der []byte) ([]byte, error) {
 	return pemEncode("CERTIFICATE", der)
 }
